@@ -810,9 +810,14 @@ class Message:
         )
 
         if set_uri_host and not is_ip_literal:
+            # Not from parsed.hostname: that is lower-cased already, and by
+            # Unicode rules ("Ä" to "ä", the Kelvin sign to "k"), where only
+            # ASCII letters are to be lower-cased -- which is also all that
+            # happens to the same name written with percent-encoded characters
+            raw_host = parsed.netloc.rpartition("@")[2].partition(":")[0]
             try:
                 self.opt.uri_host = urllib.parse.unquote(
-                    parsed.hostname, errors="strict"
+                    raw_host, errors="strict"
                 ).translate(_ascii_lowercase)
             except UnicodeError as e:
                 raise error.MalformedUrlError(
